@@ -75,6 +75,47 @@ def action_table(cfg) -> List[str]:
     return names
 
 
+def scheduled_folders(work, rng) -> Dict[str, Any]:
+    """An episode-scheduled scenario (folder with schedule.yaml) over a routed network, in every rotation of its
+    two-entry schedule: episode k of rotation 0 must behave like episode 1 (first use, after one reset) of the
+    rotation that puts the same entry at position 1."""
+    import yaml
+
+    cfg = scenarios.routed()
+    acts = [("node-application-execute", {"node_name": "a", "application_name": "web-browser"}),
+            ("router-acl-add-rule", {"target_router": "r", "position": 0, "permission": "DENY", "src_ip": "192.168.1.2",
+                                     "src_wildcard": "NONE", "src_port": "ALL", "dst_ip": "ALL", "dst_wildcard": "NONE",
+                                     "dst_port": "ALL", "protocol_name": "ALL"}),
+            ("router-acl-remove-rule", {"target_router": "r", "position": 0}),
+            ("node-shutdown", {"node_name": "b"}), ("node-startup", {"node_name": "b"}),
+            ("host-nic-disable", {"node_name": "b", "nic_num": 1}), ("host-nic-enable", {"node_name": "b", "nic_num": 1}),
+            ("node-nmap-ping-scan", {"source_node": "a", "target_ip_address": ["192.168.2.2"], "show": False})]
+    comps = [{"type": "nodes", "label": "NODES", "options": {
+                 "hosts": [{"hostname": "a"}, {"hostname": "b"}], "routers": [{"hostname": "r"}], "firewalls": [],
+                 "num_services": 1, "num_applications": 2, "num_folders": 1, "num_files": 1, "num_nics": 1,
+                 "include_nmne": False, "include_num_access": False, "monitored_traffic": {"icmp": ["NONE"]},
+                 "ip_list": ["192.168.1.2", "192.168.2.2"], "wildcard_list": ["0.0.0.1"], "port_list": [80, 5432],
+                 "protocol_list": ["ICMP", "TCP", "UDP"], "num_rules": 4, "num_ports": 3}}]
+    cfg["agents"] = [scenarios.proxy_agent(scenarios.action_map_from(acts), masking=False, components=comps)]
+    cfg["game"]["max_episode_length"] = 64
+    for n in cfg["simulation"]["network"]["nodes"]:
+        if n["hostname"] == "a":
+            n["applications"] = "__VAR_APPS__"
+    base = yaml.safe_dump(cfg, sort_keys=False).replace("'__VAR_APPS__'", "*var_apps").replace("__VAR_APPS__", "*var_apps")
+    var = ["var_apps: &var_apps\n  - type: web-browser\n", "var_apps: &var_apps\n  - type: web-browser\n  - type: database-client\n"]
+    out = {}
+    for rot in (0, 1):
+        d = work / f"sched_rot{rot}"
+        d.mkdir()
+        (d / "scenario.yaml").write_text(base)
+        for i, v in enumerate(var):
+            (d / f"var_{i}.yaml").write_text(v)
+        order = [0, 1] if rot == 0 else [1, 0]
+        (d / "schedule.yaml").write_text(yaml.safe_dump({"base_scenario": "scenario.yaml", "schedule": {i: [f"var_{o}.yaml"] for i, o in enumerate(order)}}))
+        out[rot] = str(d)
+    return out
+
+
 def sig_fn(tr, event, stuck):
     return {"part": tr["meta"]["part"], "scenario": tr["meta"]["scenario"], "raised": tr["meta"].get("raised", "")}
 
@@ -180,6 +221,20 @@ def main(tier: str, seed: int) -> int:
         specs += [spec_i, spec_s]
         index.append(("instances", label, len(specs) - 2, len(specs) - 1, 0, 0, {"ops": [o[:2] for o in ops], "swapped": swap}))
         chk.add_case({"part": "instances", "s": label, "ops": ops, "swap": swap})
+    # (d) schedule wrap-around: episode k of a looping schedule against the first use of the same schedule entry
+    work = common.tmpdir("verif_c04_")
+    folders = scheduled_folders(work, rng)
+    sched_names = action_table(folders[0])
+    for k in ((2, 3) if tier == "quick" else (2, 3, 4, 5, 6, 7)):
+        sigma = [rng.randrange(len(sched_names)) for _ in range(sigma_len)]
+        sd = rng.randrange(10**6)
+        ops_k = [["new", "A"]] + [["reset", "A", 77 + j] for j in range(k - 1)] + [["reset", "A", sd]] + [["step", "A", a] for a in sigma]
+        ops_1 = [["new", "A"], ["reset", "A", sd]] + [["step", "A", a] for a in sigma]
+        # entry used by episode k of rotation 0 is k mod 2; rotation r has entry (1 + r) mod 2 at position 1
+        rot = 0 if k % 2 == 1 else 1
+        specs += [{"instances": {"A": {"dir": folders[0]}}, "ops": ops_k}, {"instances": {"A": {"dir": folders[rot]}}, "ops": ops_1}]
+        index.append(("schedule", "scheduled_routed", len(specs) - 2, len(specs) - 1, k, 1, {"episode": k, "entry": k % 2}))
+        chk.add_case({"part": "schedule", "episode": k, "sigma": sigma})
     outs = pairs.run_workers(specs, module="harness.traj_multi")
     traces = []
     for part, label, i, j, skip_i, skip_j, extra in index:
@@ -196,6 +251,15 @@ def main(tier: str, seed: int) -> int:
             kb = [n for n, s in enumerate(sb) if s["kind"] == "reset"]
             sa = sa[ka[1]:] if len(ka) > 1 else []
             sb = sb[kb[1]:] if len(kb) > 1 else []
+        if part == "schedule":
+            # compare from the last reset on (episode k against the first use of the same schedule entry)
+            ka = [n for n, s in enumerate(sa) if s["kind"] == "reset"]
+            kb = [n for n, s in enumerate(sb) if s["kind"] == "reset"]
+            if len(ka) != skip_i or len(kb) != 1:
+                if not a["raised"]:
+                    raise tlc.TLCError(f"schedule part: resets not recorded ({len(ka)}/{skip_i}, {len(kb)}/1): {a['raised']} {b['raised']}")
+            sa = sa[ka[-1]:] if ka else []
+            sb = sb[kb[-1]:] if kb else []
         traces.append(pairs.pair_trace(a, b, sa, sb, meta={"part": part, "scenario": label, "raised": str(a.get("raised") or ""), **extra}))
         # (c) ownership: nothing mutable survives a reset
         for which, o in (("dirty/interleaved", a), ("fresh/solo", b)):
